@@ -430,7 +430,7 @@ func (sc *Script) render(target *Obligation) string {
 		if i == target.at {
 			break
 		}
-		if !l.ob.Cover && !l.ob.NoAssume {
+		if !l.ob.Cover && !l.ob.NoAssume && !sc.foreignGoal(l.ob) {
 			b.WriteString("(assert " + implies(l.ob.Guard, l.ob.Cond).S + ")\n")
 		}
 	}
@@ -441,6 +441,18 @@ func (sc *Script) render(target *Obligation) string {
 	}
 	b.WriteString("(check-sat)\n")
 	return b.String()
+}
+
+// foreignGoal: an end-of-path goal (postcondition, frame, invariant, termination) that belongs to another property than
+// the one being checked. Such a goal is neither decided nor ASSUMED in this run: a postcondition of this property must not
+// be discharged with the help of a neighbouring property's postcondition that may be failing (seed C05-7: "accepted =>
+// version 0.3" held only because C03's "version != 0.3 => rejected" was assumed). Safety obligations along the path are
+// still assumed - they are what the path condition after a checked access means.
+func (sc *Script) foreignGoal(ob *Obligation) bool {
+	if sc.skip == nil || !sc.skip(ob) {
+		return false
+	}
+	return ob.Kind == "post" || ob.Kind == "frame" || ob.Kind == "termination" || strings.HasPrefix(ob.Kind, "inv-")
 }
 
 // renderIncremental produces one script with push/pop per obligation.
@@ -462,7 +474,7 @@ func (sc *Script) renderIncremental() string {
 		ob := l.ob
 		if sc.skip != nil && sc.skip(ob) {
 			// not an obligation of the property being checked: not decided in this run, only assumed like every earlier one
-			if !ob.Cover && !ob.NoAssume {
+			if !ob.Cover && !ob.NoAssume && !sc.foreignGoal(ob) {
 				b.WriteString("(assert " + implies(ob.Guard, ob.Cond).S + ")\n")
 			}
 			continue
